@@ -188,6 +188,23 @@ def run_proofs(report, prop, modules, timeout_ms=None):
                 report.pending_proof_violations.append(
                     (f"obligation {mod}/table[{name}] refuted: table contents differ from the specification",
                      {"obligation": f"table[{name}]", "actual": repr(actual)[:800], "expected": repr(expected)[:800]}))
+    # runtime contract monitor (bounded stand-in): the same clauses, evaluated natively around every call of these functions while
+    # the repository's tests and a formula workload run
+    if not rebase and os.environ.get("VERIF_NO_MONITOR") != "1":
+        try:
+            from .rtc import monitor
+            reg_ = importlib.import_module(modules[0][0]).REG
+            mon, mfails = monitor.run(reg_, [q for _, fns in modules for q in fns], tier_name, common.seed())
+        except Exception as e:                                  # noqa: BLE001
+            mon, mfails = {"error": f"{type(e).__name__}: {e}"[:300]}, []
+            report.failures.append(f"runtime contract monitor crashed: {type(e).__name__}: {e}"[:300])
+        report.coverage["runtime_contract_monitor"] = mon
+        for f in mfails:
+            # a concrete call of the real function for which a contract clause is false. (Verification is modular: the function's own
+            # obligations may still be discharged when a callee broke ITS contract - the failing call is evidence either way. On the
+            # unchanged tree there is none; if one appeared there, the contract or a model behind the proofs would be wrong.)
+            report.violation(f"runtime contract failure in {f['function']}: {f['kind']} clause '{f['clause'][:160]}' is false for the call {f['call'][:300]}",
+                             dict(f, tier="runtime contract monitor"))
     assumed = []
     mod_assumptions = []
     for mod, fns in modules:
